@@ -28,6 +28,15 @@ def scratch(prefix="drfv"):
         yield d
     finally:
         shutil.rmtree(d, ignore_errors=True)
+        if os.path.isdir(d):
+            # (a case that restricted permissions and was interrupted: directories must be writable to be emptied)
+            for dp, dn, _fn in os.walk(d):
+                for x in [dp] + [os.path.join(dp, y) for y in dn]:
+                    try:
+                        os.chmod(x, 0o755)
+                    except OSError:
+                        pass
+            shutil.rmtree(d, ignore_errors=True)
 
 
 @contextlib.contextmanager
